@@ -836,6 +836,214 @@ def aborted_part(chk):
         chk.violation("aborted-histories-setup", "most histories with an unsuccessful build could not be set up (the build did not fail after running the command once)",
                       dict(examples=chk.notes.get("aborted_histories_not_applicable", [])[:3]), found_input=False, broken="harness: aborted-build histories")
 
+# ------------------------------------------------------------------ C11: commands with SEVERAL dependency files
+
+MULTI_TMPL = """client:
+  name: basic
+
+targets:
+  "": ["<all>"]
+
+commands:
+  C1:
+    tool: shell
+    outputs: ["<c1>"]
+    description: CC
+    args: "%s echo x >> counter"
+%s    deps: [%s]
+    deps-style: %s
+  D:
+    tool: shell
+    inputs: ["<c1>"]
+    outputs: ["<all>"]
+    description: DEPENDENT
+    args: "echo y >> dependent"
+"""
+MALFORMED_FILE = {"makefile": b"out hdr\n", "makefile-ignoring-subsequent-outputs": b"out hdr\n", "dependency-info": b"\0v\0\x10hdr"}
+STYLE_CODE = {"makefile": 1, "dependency-info": 2, "makefile-ignoring-subsequent-outputs": 3}
+
+def multi_setup(chk, S, style, mode, name, nfiles, pos, kind, variant, start_missing=False):
+    """A command with `nfiles` dependency files.  kind "path": the path is named ONLY in file number `pos`; kind "malformed"
+    / "missing": file number `pos` is malformed / is not written at all (the others are fine)."""
+    shutil.rmtree(S, ignore_errors=True)
+    wd, cmdwd, P, spelled = layout(S, mode, name)
+    files, script = [], ""
+    for i in range(nfiles):
+        other = os.path.join(cmdwd.encode(), b"other%d" % i)
+        open(other, "wb").write(b"o")
+        if kind == "path" and i == pos:
+            data = deps_file(style, spelled, variant)
+        elif kind == "malformed" and i == pos:
+            data = MALFORMED_FILE[style]
+        elif kind == "missing" and i == pos:
+            data = None
+        else:
+            data = deps_file(style, b"other%d" % i, variant + i)
+        files.append(data)
+        if data is not None:
+            open(os.path.join(cmdwd, "deps%d.src" % i), "wb").write(data)
+            script += "cp deps%d.src f%d.d && " % (i, i)
+    if kind == "path" and not start_missing:
+        open(P, "wb").write(b"1")
+        os.utime(P, ns=(10**18, 10**18))
+    bf = os.path.join(S, "build.llbuild")
+    open(bf, "w").write(MULTI_TMPL % (script, ('    working-directory: "%s"\n' % wd) if wd else "", ", ".join('"f%d.d"' % i for i in range(nfiles)), style))
+    mwd = os.path.join(S, wd).encode() if wd else b""
+    rcm, mo, me = vlib.run_lines(sides(chk).model, ["processn %d %s %s %s" % (STYLE_CODE[style], hx(S.encode()), hx(mwd), ",".join("!" if f is None else hx(f) for f in files))])
+    mok, mkeys = mo[0].split(" ")[0] == "1", [unhx(x) for x in mo[0].split(" ")[1].split(",")] if mo[0].split(" ")[1] != "." else []
+    norm = lambda k: os.path.normpath(phys(os.path.join(S.encode(), k)))
+    rp = dict(multi=dict(style=style, name=repr(name), name_hex=hx(name), mode=mode, files=nfiles, position=pos, kind=kind, variant=variant, start_missing=start_missing),
+              path=repr(P), deps_files=[repr(f) for f in files], working_directory=wd, sandbox=S,
+              model=dict(succeeds=mok, keys=[repr(k) for k in mkeys], tracks_the_path=norm(P) in [norm(k) for k in mkeys]))
+    return rp, bf, cmdwd, P
+
+def count_lines(path):
+    return len(open(path).read().split()) if os.path.exists(path) else 0
+
+def cli_multi_history(chk, llb, S, style, mode, name, nfiles, pos, kind, event, variant):
+    rp, bf, cmdwd, P = multi_setup(chk, S, style, mode, name, nfiles, pos, kind, variant, start_missing=(event == "create"))
+    log = rp["builds"] = []
+    where = "%s of %d" % (["first", "second", "third"][pos], nfiles)
+    def build(label):
+        rc, out, err = vlib.sh([llb, "buildsystem", "build", "--serial", "--chdir", S, "-f", bf], timeout=60)
+        n, d = count_lines(os.path.join(cmdwd, "counter")), count_lines(os.path.join(S, "dependent"))
+        log.append(dict(step=label, exit=rc, executions_so_far=n, dependent_executions=d, output=(out + err)[-400:]))
+        return rc, n, d
+    rp["oracle"] = "executions of the command and of its dependent counted through side-effect files, judged by the harness without the model"
+    if kind != "path":
+        rc, n, d = build("build: the %s dependency file is %s" % (where, kind))
+        if rc == 0 or d != 0:
+            return ("multi-deps-bad-file-accepted", "a command with %d dependency files whose %s file is %s: the build %s%s" % (
+                nfiles, ["first", "second", "third"][pos], kind, "succeeds" if rc == 0 else "fails", " and the dependent command ran" if d else ""), rp)
+        if n != 1:
+            return ("setup", "the command did not run once (%d)" % n, rp)
+        rc, n, d = build("next build, nothing changed")
+        if rc == 0 or n != 2 or d != 0:
+            return ("multi-deps-bad-file-accepted", "a command whose %s dependency file is %s is not retried by the next build (exit %d, %d executions, dependent ran %d times)" % (
+                ["first", "second", "third"][pos], kind, rc, n, d), rp)
+        return (None, "", rp)
+    rc, n, d = build("first build")
+    if rc != 0 or n != 1:
+        return ("setup", "first build: exit %d, %d executions" % (rc, n), rp)
+    rc, n, d = build("second build, nothing changed")
+    if rc != 0 or n != 1:
+        return ("spurious-reexecution", "the command re-executed (or the build failed) although nothing changed (exit %d, %d executions)" % (rc, n), rp)
+    if event == "modify":
+        open(P, "wb").write(b"22"); os.utime(P, ns=(10**18 + 5 * 10**9, 10**18 + 5 * 10**9))
+    elif event == "delete":
+        os.unlink(P)
+    else:
+        open(P, "wb").write(b"1")
+    rc, n, d = build("build after %s of the path named only in the %s dependency file" % (event, where))
+    if n != 2:
+        return ("multi-deps-change-not-honoured", "the command has %d dependency files and reported reading %r only in the %s one; it did not re-execute after the %s of that path" % (
+            nfiles, P, ["first", "second", "third"][pos], {"modify": "modification", "delete": "deletion", "create": "creation"}[event]), rp)
+    rc, n, d = build("last build, nothing changed")
+    if n != 2:
+        return ("spurious-reexecution", "the command re-executed although nothing changed since the previous build", rp)
+    return (None, "", rp)
+
+def inprocess_multi_history(chk, S, style, mode, name, nfiles, pos, variant, use_db):
+    """the same through ONE BuildSystemFrontend: the path named only in file `pos` changes several times"""
+    rp, bf, cmdwd, P = multi_setup(chk, S, style, mode, name, nfiles, pos, "path", variant)
+    log = rp["builds"] = []
+    rp["inprocess_multi"] = dict(rp["multi"], use_db=use_db)
+    it = vlib.Interactive(sides(chk).deps)
+    try:
+        a = it.ask("open %s %s %s 0" % (hx(S.encode()), hx(bf.encode()), hx(os.path.join(S, "build.db").encode()) if use_db else "-"))
+        want, size, stamp = 0, 1, 10**18
+        for i, ev in enumerate(["initial", "none", "modify", "modify", "delete", "create", "none"]):
+            if ev in ("modify", "create"):
+                size += 1; stamp += 5 * 10**9
+                open(P, "wb").write(b"x" * size); os.utime(P, ns=(stamp, stamp))
+            elif ev == "delete":
+                os.unlink(P)
+            if ev != "none":
+                want += 1
+            f = dict(x.split("=", 1) for x in it.ask("build -").split(" "))
+            n = count_lines(os.path.join(cmdwd, "counter"))
+            log.append(dict(build=i + 1, before=ev, ok=f.get("ok"), commands_started=f.get("ran"), executions_so_far=n, expected=want))
+            if f.get("ok") != "1":
+                return ("inprocess-build-failed", "build %d of a sequence through one build system failed" % (i + 1), rp)
+            if n < want:
+                return ("multi-deps-change-not-honoured", "one build system, several builds: the command has %d dependency files and reported reading %r only in the %s one; "
+                        "it did not re-execute after the %s of that path (build %d)" % (nfiles, P, ["first", "second", "third"][pos], ev, i + 1), rp)
+            if n > want:
+                return ("inprocess-spurious-reexecution", "one build system, several builds: the command re-executed although nothing changed (build %d)" % (i + 1), rp)
+    except RuntimeError as e:
+        rp["driver_error"] = str(e)[-1500:]
+        return ("inprocess-crash", "the in-process build driver died during a sequence of builds", rp)
+    finally:
+        it.close()
+    return (None, "", rp)
+
+def multi_part(chk):
+    base = os.path.join(sandbox(), "multi")
+    shutil.rmtree(base, ignore_errors=True)
+    os.makedirs(base)
+    llb = private_llbuild(base)
+    names = [b"hdr.h", b"h d", b"a:b c", b"./h", b'"config"']
+    modes = ["relative", "relative-wd", "absolute"]
+    hist = []     # (how, style, mode, name, nfiles, pos, kind, event)
+    i = 0
+    if chk.quick():
+        for style in STYLES:
+            for (nf, pos) in ((2, 1), (3, 2), (3, 1)):
+                hist.append(("cli", style, modes[i % 3], names[i % 5], nf, pos, "path", EVENTS[i % 3])); i += 1
+            for kind in ("malformed", "missing"):
+                for (nf, pos) in ((3, 0), (3, 1), (3, 2), (2, 0)):
+                    hist.append(("cli", style, modes[i % 3], b"hdr.h", nf, pos, kind, "none")); i += 1
+            hist.append(("inproc", style, modes[i % 3], names[i % 5], 3, 2, "path", "none")); i += 1
+        hist.append(("cli", "makefile-ignoring-subsequent-outputs", "relative", b"hdr.h", 2, 1, "path", "modify"))
+        hist.append(("cli", "makefile-ignoring-subsequent-outputs", "relative", b"hdr.h", 3, 0, "malformed", "none"))
+    else:
+        for style in ALL_STYLES:
+            for nf in (2, 3):
+                for pos in range(nf):
+                    for event in EVENTS[:3]:
+                        hist.append(("cli", style, modes[i % 3], names[i % 5], nf, pos, "path", event)); i += 1
+                    for kind in ("malformed", "missing"):
+                        hist.append(("cli", style, modes[i % 3], b"hdr.h", nf, pos, kind, "none")); i += 1
+                    for use_db in (True, False):
+                        hist.append(("inproc" if use_db else "inproc-nodb", style, modes[i % 3], names[i % 5], nf, pos, "path", "none")); i += 1
+    builds = ok = skipped = 0
+    mism = []
+    for k, (how, style, mode, name, nf, pos, kind, event) in enumerate(hist):
+        S = os.path.join(base, "m%d" % k)
+        if how == "cli":
+            key, what, rp = cli_multi_history(chk, llb, S, style, mode, name, nf, pos, kind, event, k)
+        else:
+            key, what, rp = inprocess_multi_history(chk, S, style, mode, name, nf, pos, k, how == "inproc")
+        builds += len(rp["builds"])
+        if key == "setup":
+            skipped += 1
+            chk.notes.setdefault("multi_histories_not_applicable", []).append(dict(history=rp["multi"], why=what))
+            continue
+        chk.count(("multi", how, style, mode, name, nf, pos, kind, event))
+        if k == 1:
+            chk.cov["multi_deps_sample"] = dict(history=rp["multi"], deps_files=rp["deps_files"], builds=[(b.get("step", b.get("before")), b.get("exit", b.get("ok")), b["executions_so_far"]) for b in rp["builds"]])
+        # the glue model's prediction for the list of files
+        if kind == "path" and (key in (None, "multi-deps-change-not-honoured")) and (key is None) != rp["model"]["tracks_the_path"]:
+            mism.append(dict(history=rp["multi"], model=rp["model"], implementation_reexecutes=(key is None)))
+        if kind != "path" and (key is None) != (not rp["model"]["succeeds"]):
+            mism.append(dict(history=rp["multi"], model=rp["model"], implementation_build_fails=(key is None)))
+        if key:
+            chk.violation(key, what, rp, found_input=True, broken="c11 oracle (every dependency file of a command counts) on llbuild")
+        else:
+            ok += len(rp["builds"])
+            shutil.rmtree(S, ignore_errors=True)
+    chk.cov["multi_deps_histories"] = len(hist)
+    chk.cov["multi_deps_not_applicable"] = skipped
+    chk.cov["multi_deps_builds"] = builds
+    chk.cov["traces_validated_against_impl"] = chk.cov.get("traces_validated_against_impl", 0) + ok
+    if mism and not any(v["found"] for v in chk.violations):
+        chk.violation("glue-correspondence-multi", "the glue model (Parse/DepsGlue.v: process_discovered over several dependency files) and llbuild disagree on %d histories" % len(mism),
+                      dict(broken="correspondence: Parse.DepsGlue.process_files vs ShellCommand::processDiscoveredDependencies", examples=mism[:4]),
+                      found_input=False, broken="correspondence: Parse.DepsGlue.process_files")
+    if skipped * 2 > len(hist):
+        chk.violation("multi-histories-setup", "most histories with several dependency files could not be set up", dict(examples=chk.notes.get("multi_histories_not_applicable", [])[:3]),
+                      found_input=False, broken="harness: multi-deps histories")
+
 def private_llbuild(base):
     """a private copy of the freshly built llbuild: other checks may relink _work/b-hooks/bin/llbuild while the
     histories below run (the copy is taken under the lock that guards that build directory)"""
@@ -1091,6 +1299,7 @@ def run(chk):
     guarded(chk, "writer", writer_part)
     guarded(chk, "cli", cli_part)
     guarded(chk, "aborted", aborted_part)
+    guarded(chk, "multi-deps", multi_part)
     guarded(chk, "inprocess", inprocess_part)
     guarded(chk, "byte-strings", deps_part, report=False)
     report_disagreements(chk, "parsers")
@@ -1106,7 +1315,7 @@ def run(chk):
                       rule="parsers: corpus, all strings over 7-8 (makefile) / 4-6 (dependency-info) special bytes up to length 5-7, every truncation of valid files, grammar mutations, random bytes, "
                            "writer outputs for path lists over an alphabet with every special byte (3 separators, 1-3 rules), malformed families; each through the normal build, the ASan build and the model. "
                            "glue: words over '/.a' up to length 4 x 11 working directories. cli: style x path spelling x (relative|absolute) x (with|without working-directory) x (modify|delete|create|none). "
-                           "aborted: a build that ends unsuccessfully (cycle elsewhere / unrelated failing command) after the command recorded the path, then repair + change + new process over the same database. in-process: one BuildSystemFrontend (deps_driver.cpp) used for 7-9 builds with modify / delete / create of the discovered path in between, 3 styles x spellings x modes x with/without database. "
+                           "multi: commands with 2-3 dependency files - the path named only in the 1st/2nd/3rd file changes (cli and in-process); a malformed / missing file in each position must fail the build, keep the dependent from running and be retried. aborted: a build that ends unsuccessfully (cycle elsewhere / unrelated failing command) after the command recorded the path, then repair + change + new process over the same database. in-process: one BuildSystemFrontend (deps_driver.cpp) used for 7-9 builds with modify / delete / create of the discovered path in between, 3 styles x spellings x modes x with/without database. "
                            "non-trivial = the implementation emits at least one event (parsers), relative word (glue), history with a change (cli, in-process); distinct by request / scenario",
                       trusted=["hand-written models coq/Parse/MakeDeps.v, DepInfo.v, DepsGlue.v tied by correspondence", "harness/cpp/parse_driver.cpp", "harness/cpp/deps_driver.cpp",
                                "extraction (ExtrOcamlBasic) + ocaml/vmodel_parse.ml", "clang-14 AddressSanitizer/UBSan as the observer of reads outside the buffer"])
@@ -1129,6 +1338,19 @@ def replay(chk, rp):
         print("scenario replayed: %s" % (("FAILS: " + key + " - " + what) if key else "passes"))
         for b in r2["builds"]:
             print("  ", b["step"], "exit", b["exit"], "executions", b["executions_so_far"])
+    mu = rp.get("multi")
+    if mu:
+        base = sandbox() + "-replay"
+        os.makedirs(base, exist_ok=True)
+        S = os.path.join(base, "multi")
+        if rp.get("inprocess_multi"):
+            key, what, r2 = inprocess_multi_history(chk, S, mu["style"], mu["mode"], unhx(mu["name_hex"]), mu["files"], mu["position"], mu["variant"], rp["inprocess_multi"]["use_db"])
+        else:
+            ev = "create" if mu.get("start_missing") else "modify"
+            key, what, r2 = cli_multi_history(chk, private_llbuild(base), S, mu["style"], mu["mode"], unhx(mu["name_hex"]), mu["files"], mu["position"], mu["kind"], ev, mu["variant"])
+        print("multi-deps history replayed: %s" % (("FAILS: " + key + " - " + what) if key else "passes"))
+        for b in r2["builds"]:
+            print("  ", b)
     ab = rp.get("aborted")
     if ab:
         base = sandbox() + "-replay"
